@@ -213,7 +213,7 @@ def classify(rec, k, step, scope):
             classes.add("F1")      # the failing item kept the output of an earlier pass
         elif w["status"] == "err" and f["status"] == "ok":
             classes.add("F2")      # failed earlier, would succeed now, was not retried
-        elif w["status"] == "ok" and f["status"] == "err" and had_dir_removal and "d" in scope:
+        elif w["status"] == "ok" and had_dir_removal and "d" in scope:
             classes.add("F4")      # a dependency went away with its directory, item not restarted
         else:
             classes.add("?")
@@ -238,7 +238,8 @@ def check_xform_hypotheses(records):
                 if it["status"] != "ok":
                     continue
                 out = step["fresh"]["out"].get(it["output"])
-                key = (cfg, it["source"], ufs.get(it["source"]))
+                # blob numbers are per harness run: never compare across streams
+                key = (rec["stream"], cfg, it["source"], ufs.get(it["source"]))
                 view = tuple((d, ufs.get(d)) for d in it["deps"])
                 n += 1
                 for d, c in view:
